@@ -235,6 +235,8 @@ package didnuts
 //@   pure
 //@ func (Manager).IsCommitted
 //@   prop C13
+//@   call (didstore.Store).Resolve #1 requires [the-latest-version-is-what-is-compared] arg(0) == m.store && arg(2) != nil && arg(2).Hash == nil && arg(2).ResolveTime == nil
+//@        && arg(2).SourceTransaction == nil && arg(2).AllowDeactivated
 //@   ensures [a-never-published-did-is-not-committed-and-not-an-error] errors.Is(ret(call (didstore.Store).Resolve #1).2, resolver.ErrNotFound) ==> result.0 == false && isNilIface(result.1)
 //@   ensures [other-store-errors-are-reported] !errors.Is(ret(call (didstore.Store).Resolve #1).2, resolver.ErrNotFound) && !isNilIface(ret(call (didstore.Store).Resolve #1).2) ==> !isNilIface(result.1) && result.0 == false
 //@   ensures [committed-means-the-latest-stored-document-is-this-version] isNilIface(ret(call (didstore.Store).Resolve #1).2) && !errors.Is(ret(call (didstore.Store).Resolve #1).2, resolver.ErrNotFound)
